@@ -477,6 +477,11 @@ def col_selectors(nch, rng):
     mask = [bool(rng.randrange(2)) for _ in range(nch)]
     mask[rng.randrange(nch)] = True
     sel.append({'mask': mask})
+    # selections that REPEAT channels (the result is wider than its source) and the identity selection 0..n-1
+    sel.append({'idx': list(range(nch)) + [rng.randrange(nch) for _ in range(rng.randrange(1, 3))]})
+    sel.append({'idx': list(range(nch))})
+    if nch >= 2:
+        sel.append({'idx': list(range(rng.randrange(1, nch)))})        # a prefix 0..k-1
     return sel
 
 
